@@ -3,7 +3,7 @@ from __future__ import annotations
 
 from hypothesis import strategies as st
 
-from ..engine import Eval, Failure, Guarded, Target, guard
+from ..engine import Eval, Failure, Guarded, Target, collecting, guard
 from ..values import BPAdapter, norm, snap_bp
 from . import _common as cm
 from ._corpus import corpus
@@ -29,10 +29,10 @@ def make_eval(c, adapter_kw=None):
     schema = c.schema
     adapter = BPAdapter(schema, **(adapter_kw or {}))
 
-    def clauses(name, tree, route):
+    @collecting
+    def clauses(out, name, tree, route):
         cls = c.bp(name)
         mi = schema.msg(f"ks.{name}")
-        out = []
         m = guard("build", adapter.build, cls, mi, tree, route)
         b = guard("bytes", bytes, m)
         m2 = guard("parse", cls().parse, b)
@@ -49,29 +49,22 @@ def make_eval(c, adapter_kw=None):
         m3 = guard("FromString", cls.FromString, b)
         if guard("bytes3", bytes, m3) != b:
             out.append(("fromstring_reencode", "FromString(bytes(m)) re-encodes differently"))
-        return out
 
     def fails_clause(route, clause):
         def f(mi, tree):
             name = mi.full_name.split(".")[-1]
-            try:
-                return any(cl == clause for cl, _ in clauses(name, tree, route))
-            except Guarded as g:
-                return clause == f"raises_{g.where}_{type(g.exc).__name__}"
+            return any(cl == clause for cl, _ in clauses(name, tree, route))
 
         return f
 
     def ev(case):
         name, tree, route = case["msg"], case["tree"], case.get("route", "kwargs")
         mi = schema.msg(f"ks.{name}")
-        try:
-            found = clauses(name, tree, route)
-        except Guarded as g:
-            found = [(f"raises_{g.where}_{type(g.exc).__name__}", str(g))]
+        found = clauses(name, tree, route)
         fails = []
         for clause, detail in found:
-            where = cm.localise(schema, mi, tree, fails_clause(route, clause))
-            fails.append(Failure(clause, f"{clause}|{where}", f"msg={name} route={route} tree={tree!r} :: {detail}"))
+            fails += cm.failures_for(schema, mi, tree, clause, f"msg={name} route={route} tree={tree!r} :: {detail}",
+                                     fails_clause(route, clause))
         return Eval(fails, nontrivial=cm.is_nontrivial_value(schema, mi, tree),
                     labels=cm.labels_for(schema, mi, tree) + [f"route:{route}"])
 
